@@ -19,4 +19,9 @@ def qualSum (quals : Option (List Nat)) : Nat → Nat → Nat
   | _, 0 => 0
   | q, n + 1 => qualAt quals q + qualSum quals (q + 1) n
 
+/-- the quality the no-reference detector reports for the call of an isolated deletion/insertion: the mean base quality
+of the matched REF bases of a deletion (query bases `q …`), 30 in every other case -/
+def indelQuality (quals : Option (List Nat)) (h : Nat) (ref : Seq) (q : Nat) : Nat :=
+  if h = 0 ∧ 0 < ref.length then qualSum quals q ref.length / ref.length else 30
+
 end WhVerif.C06
